@@ -104,4 +104,13 @@ PROPS = {
         "trusted_base": TB_COMMON,
         "assumptions": ["the codec's decoders are functions of the bytes (model: dec_hdr/dec_mem)"],
     },
+    "C14": {
+        "level_text": "Coq theorem next_sliding_window on the model of Members::next: for a stable membership with n >= 1 active records, any number and positions of Down records, any starting cursor (any N incl. the usize::MAX sentinel) and any oracle (every shuffle), every window of 2n-1 consecutive rounds - wherever it starts - yields every active member; each round yields an active record only (never Down; never the instance itself by the invariant of C09). Tightness witness (gap of exactly 2n-2) by vm_compute. The probe round pings next()'s result: refinement scope order/rng_use/sends.dst; sliding-window falsifier on the real crate.",
+        "technique": "Coq proof (induction on the position in the current pass / pass decomposition) + per-step refinement check",
+        "scope": {"inputs": ["timer.probe"], "components": ["order", "rng_use", "sends.dst", "sends.count", "probe", "members"]},
+        "refine": refine(),
+        "falsify": {"quick": 800, "thorough": 40000},
+        "trusted_base": TB_COMMON,
+        "assumptions": ["the member list is shorter than usize::MAX (a Vec cannot be longer)", "B5: 'stable' includes no forgetting in between (swap_remove can move an unvisited record in front of the cursor)"],
+    },
 }
